@@ -149,6 +149,10 @@ class Gen:
         rec["mid"] = 100 + r.randrange(64)
         rec["tz"] = _wchoice(r, [("America/Chicago", 3), ("US/Pacific", 1), ("Europe/London", 1.5),
                                  ("Australia/Sydney", 1.5), ("Asia/Kolkata", 1), ("UTC", 1)])
+        if r.random() < 0.07:
+            rec["tz"] = r.choice(C.FIXED_TZS)     # a fixed-offset tzinfo object instead of an IANA name
+        if self.mode in ("C01", "C05") and r.random() < 0.22:
+            rec["mid"] = 100 + 16 * r.randrange(4) + r.choice([13, 14, 15])   # balance point on a limit / low load
         rec["entry"] = r.choice(["series", "frame"])
         if dfam in ("daily", "hourly") and r.random() < 0.15:
             rec["entry"] = "frame_col"
@@ -450,6 +454,7 @@ class Gen:
             self.emit("PREDICT_PAIR", m=m0, recipe=rec2, alter=r.choice(["scaled", "shuffled", "partnan", "allnan", "absent"]))
             rec3 = dict(rec2, obs="partnan", tgap=0)
             self.emit("PREDICT_PAIR", m=m0, recipe=rec3, alter="partnan2", seq=True)
+            self.emit("PREDICT_PAIR", m=m0, recipe=dict(rec2, tgap=0), alter="monthnan")
             if self.models[m0]["fam"] == "billing":
                 self.emit("PREDICT_PAIR", m=m0, recipe=dict(rec2, tgap=0), alter="scaled", agg=r.choice(["monthly", "bimonthly"]))
             self.cost += 4 * PRED_COST.get(self.models[m0]["fam"], 0.3)
@@ -734,7 +739,7 @@ class Gen:
                 rec = self._reporting(m["base"], obs="present")
                 rec["tgap"] = 1 if r.random() < 0.45 else 0
                 alter = _wchoice(r, [("scaled", 2), ("shuffled", 2), ("partnan", 2), ("allnan", 2), ("absent", 2),
-                                     ("partnan2", 1.5)])
+                                     ("partnan2", 1.5), ("monthnan", 1.5)])
                 if alter == "partnan2":
                     rec["obs"] = "partnan"
                 args = dict(m=ms, recipe=rec, alter=alter)
